@@ -247,6 +247,16 @@ def fam_csr(rng: np.random.Generator, count: int) -> Iterator[dict]:
                "outs": {"out": 5}}
 
 
+def fam_lpcall(rng: np.random.Generator, count: int) -> Iterator[dict]:
+    """Random programs in which calls to hand-written loopy kernels are mixed
+    with the arithmetic / structural alphabet (loopy target only)."""
+    ops = ["lpcall"] * 4 + ALPHABET["elementwise"][:6] + ["sum", "transpose", "reshape",
+                                                          "basic_index", "stack"]
+    for n in range(count):
+        yield random_program(rng, f"lpcall/{n}", int(rng.integers(2, 8)), ops=ops,
+                             dtypes=("f8", "f8", "i8"))
+
+
 # --------------------------------------------------------------------------
 # random multi-operation programs (C01 C05 C07 C11 C14 C15 C17 ...)
 
@@ -319,6 +329,56 @@ class _Gen:
         self.items.append({"kind": "call", "desc": call, "np": v})
         return True
 
+    def step_lpcall(self) -> bool:
+        """A call to a hand-written loopy kernel (ptverif/lpkernels.py): array
+        arguments are existing values of the right shape and dtype where there
+        are any (else new inputs), scalar arguments literals or 0-d values;
+        one or all results of the call enter the pool (sharing one Call)."""
+        from . import lpkernels
+        rng, pick = self.rng, self.pick
+        name = pick(sorted(lpkernels.KERNELS))
+        e = lpkernels.KERNELS[name]
+        sizes = e["sizes"](rng)
+        # bias the sizes towards shapes that already exist in the pool
+        spec = e["args"](**sizes)
+        bind: dict[str, Any] = {}
+        for arg, (shape, d) in spec.items():
+            want = np.dtype(self.rp.DT[d])
+            if shape is None:
+                zero_d = self.arrays(lambda a: a.ndim == 0 and a.dtype == want)
+                if not zero_d and rng.random() < 0.4:
+                    src = self.arrays(lambda a: a.ndim > 0 and a.size > 0 and a.dtype == want)
+                    if src and self.try_call({"op": "sum", "a": pick(src), "axis": None}):
+                        zero_d = [len(self.items)]
+                if zero_d and rng.random() < 0.6:
+                    bind[arg] = pick(zero_d)
+                elif d[0] == "f":
+                    bind[arg] = {"py": "float", "v": repr(float(pick([0.5, -1.25, 2.0, 0.0])))}
+                else:
+                    bind[arg] = {"py": "int", "v": repr(int(pick([-2, 0, 1, 3])))}
+                continue
+            have = self.arrays(lambda a: tuple(a.shape) == tuple(shape) and a.dtype == want)
+            if have and rng.random() < 0.8:
+                bind[arg] = pick(have)
+                continue
+            # any value with the right number of elements and dtype, reshaped
+            resh = self.arrays(lambda a: a.size == int(np.prod(shape)) and a.dtype == want
+                               and a.ndim > 0)
+            if resh and rng.random() < 0.5 and self.try_call(
+                    {"op": "reshape", "a": pick(resh), "newshape": list(shape)}):
+                bind[arg] = len(self.items)
+                continue
+            bind[arg] = self.add_input(tuple(shape), d, "ph")
+        cid = sum(1 for it in self.items if it["kind"] == "call"
+                  and it["desc"]["op"] == "lpcall")
+        results = sorted(e["outs"](**sizes))
+        chosen = results if rng.random() < 0.6 else [pick(results)]
+        ok = False
+        for res in chosen:
+            ok = self.try_call({"op": "lpcall", "knl": name, "sizes": sizes, "cid": cid,
+                                "bind": dict(bind), "res": res}) or ok
+        return ok
+
     # -- one random call
     def step(self, ops: list[str]) -> bool:
         rng, pick = self.rng, self.pick
@@ -339,6 +399,8 @@ class _Gen:
             comp = [b for b in c if _bcast_ok(self.np_of(a).shape, self.np_of(b).shape)]
             return a, pick(comp or c)
 
+        if op == "lpcall":
+            return self.step_lpcall()
         if op in ("add", "sub", "mul", "maximum", "minimum"):
             t = two(isreal if op in ("maximum", "minimum") else isnum)
             return bool(t) and self.try_call({"op": op, "a": t[0], "b": t[1]})
@@ -603,6 +665,10 @@ class _Gen:
                 calls.append(dict(c))      # "args" of arange are numbers, not refs
             elif c["op"] == "eye":
                 calls.append(dict(c))
+            elif c["op"] == "lpcall":      # bindings: kernel argument -> ref | scalar
+                calls.append({**c, "bind": {
+                    k: (remap[v] if isinstance(v, int) and not isinstance(v, bool) else v)
+                    for k, v in c["bind"].items()}})
             else:
                 calls.append(fix(c))
         ncall = len(calls)
